@@ -352,18 +352,18 @@ def obligations(tier):
         for P in ([None] if t0k == 0 else [1, 2, 3]):     # symbolic tick length only with start time 0 (t0 = t0k * P)
             out.append(Ob("periods/%s/K%d/start%d%s" % ("-".join(orders), K, t0k, "" if P is None else "/P%d" % P), h,
                           dict(orders=orders, K=K, mode="plain", t0k=t0k, P=P),
-                          budget=900 if tier == "quick" else 2400, covers=["ran"],
+                          budget=900 if tier == "quick" else 1200, covers=["ran"],
                           bounds=dict(workers=len(orders), orders=orders, ticks=K, P="[1,3]" if P is None else P, p="[0,7]", start_time="%d ticks" % t0k)))
       for P in (1, 2, 3):
         for before in (True, False):
             for orders in ([["mid", "mid"]] if tier == "quick" else [["mid", "mid"], ["front", "back"]]):
                 out.append(Ob("abort/%s/K%d/P%d/%s/start%d" % ("-".join(orders), K, P, "bidder-first" if before else "bidder-last", t0k), h,
                               dict(orders=orders, K=K, mode="abort", P=P, before=before, t0k=t0k),
-                              budget=900 if tier == "quick" else 2400, covers=["aborted"],
+                              budget=900 if tier == "quick" else 1200, covers=["aborted"],
                               bounds=dict(workers=len(orders), ticks=K, P=P, victim_period="[0,7]", abort_tick="[0,K]", start_time="%d ticks" % t0k)))
             out.append(Ob("period-change/mid/K%d/P%d/%s/start%d" % (K, P, "bidder-first" if before else "bidder-last", t0k), h,
                           dict(orders=["mid"], K=K, mode="change", P=P, before=before, pmax=3 if tier == "quick" else 7, t0k=t0k),
-                          budget=900 if tier == "quick" else 2400, covers=["period-changed"],
+                          budget=900 if tier == "quick" else 1200, covers=["period-changed"],
                           bounds=dict(workers=1, ticks=K, P=P, period="[0,3]" if tier == "quick" else "[0,7]", change_tick="[0,K]",
                                       new_period="[0,3]" if tier == "quick" else "[0,7]", start_time="%d ticks" % t0k)))
     ms = [1, 2] if tier == "quick" else [1, 2, 3, 4]
